@@ -313,6 +313,9 @@ def case_strategy(draw, fname):
                 big = "x" * longlen
             rec[j][1] = big
         recs.append(rec)
+    if v.get("implicit") and recs and recs[0] and recs[0][0][1].startswith(U("\ufeff")):
+        # a byte-order mark at the very start of the file is stripped by design; without a header line that is the first value
+        recs[0][0][1] = "v" + recs[0][0][1]
     return {"fmt": fname, "variant": v["name"], "recs": recs, "long": longlen}
 
 
